@@ -48,7 +48,7 @@ BRINGUP = [0x06, 0x43, 0x06, 0x11]
 
 
 def SIM_CFG(tier):
-    return {"pseeds": 3 if tier == "quick" else 200, "cseeds": 4 if tier == "quick" else 50}
+    return {"pseeds": 4 if tier == "quick" else 200, "cseeds": 4 if tier == "quick" else 50}
 
 
 def run_one(ch, cfg):
@@ -62,7 +62,7 @@ def run_one(ch, cfg):
     if d["exc"] is not None or d["code"] not in (0, 1):
         return _res([("dry/failed:%s" % variant, "%r %r" % (d["rep"], d["exc"]))], None,
                     (variant, "dry"), False, {}, {})
-    k = ch.draw(len(d["steps"]), "exchange-index")
+    k = ch.slot(len(d["steps"]), "exchange-index")
     kind = KINDS[ch.draw(len(KINDS), "fault-kind")]
     step = d["steps"][k]
     if step[0] == "exit" and not kind.startswith("timeout"):
@@ -217,6 +217,9 @@ def _res(viol, w, state, nontrivial, probes, sample):
     return {"violations": viol, "digest": w.log.digest() if w else "-", "state": state,
             "nontrivial": nontrivial, "faults": dict(w.link.stats.faults) if w else {},
             "probes": probes, "sim_s": w.clock.elapsed if w else 0.0, "sample": sample}
+
+
+ENUM_LABELS = ["variant", "policy-seed", "content-seed", "exchange-index", "fault-kind"]
 
 
 class _Enum:
